@@ -31,6 +31,7 @@ var (
 	reLine    = regexp.MustCompile(`^(\d+)\s+(.*)$`)
 	reResumed = regexp.MustCompile(`^<\.\.\. (\w+) resumed>(.*)$`)
 	reFdPath  = regexp.MustCompile(`^(-?\d+)<([^>]*)>`)
+	reRet     = regexp.MustCompile(`\)\s+= `)
 )
 
 func unhex(s string) []byte {
@@ -132,11 +133,19 @@ func Parse(logPath, root, markFile string) ([]Op, error) {
 			delete(pending, pid)
 		}
 		open := strings.IndexByte(rest, '(')
-		eq := strings.LastIndex(rest, ") = ")
+		// the closing parenthesis and the result are separated by padding whose width varies (a resumed call is
+		// printed as "<... write resumed>)              = 7"): take the LAST ")<spaces>= "
+		eq, eqEnd := -1, -1
+		if loc := reRet.FindAllStringIndex(rest, -1); len(loc) > 0 {
+			eq, eqEnd = loc[len(loc)-1][0], loc[len(loc)-1][1]
+		}
 		if open < 0 || eq < 0 {
+			if open > 0 && !strings.HasPrefix(rest, "+++") && !strings.HasPrefix(rest, "---") && !strings.Contains(rest, "???") {
+				return nil, fmt.Errorf("strace line %d: cannot find the result of %.60q", n, rest)
+			}
 			continue
 		}
-		name, argstr, ret := rest[:open], rest[open+1:eq], strings.TrimSpace(rest[eq+4:])
+		name, argstr, ret := rest[:open], rest[open+1:eq], strings.TrimSpace(rest[eqEnd:])
 		retv := ret
 		if i := strings.IndexAny(ret, " <"); i > 0 {
 			retv = ret[:i]
